@@ -44,6 +44,7 @@ class Link(object):
         self.client_closed = False
         self.file_closed = False
         self.events = []                # (seq, kind, info)
+        self.event_thread = {}          # seq -> name of the acting thread
         self.reads = 0
         self.eof_reads = 0              # read() calls that returned b''
         self.idle = 0                   # times select found nothing
@@ -53,7 +54,9 @@ class Link(object):
         self.max_eof_reads = 10000
 
     def log(self, kind, info=None):
-        self.events.append((self.world.next_seq(), kind, info))
+        seq = self.world.next_seq()
+        self.events.append((seq, kind, info))
+        self.event_thread[seq] = threading.current_thread().name
 
     # ---- server side
     def emit(self, data):
@@ -349,6 +352,7 @@ class World(object):
                 link = files[0].link
                 if world.scheduler is not None:
                     link.idle += 1
+                    world.yield_point('idle', None)
                     return [], [], []
                 with link.cond:
                     link.idle += 1
